@@ -286,7 +286,9 @@ impl LazyFreeList {
     /// This implements advanced processing patterns where the queue
     /// reaches 2x the bulk threshold.
     pub fn should_bulk_process(&self) -> bool {
-        self.len() >= 2 * self.bulk_threshold
+        // A threshold above usize::MAX / 2 (e.g. `with_bulk_threshold(usize::MAX)` for "no
+        // limit per call") can never be reached twice over; 2 * threshold must not overflow.
+        self.len() >= self.bulk_threshold.saturating_mul(2)
     }
 
     /// Returns statistics about the lazy free list.
